@@ -184,9 +184,9 @@ def pexp(k, v):
     if k == "ok":
         return "PExpNone" if v == "None" else "(PExpOk %s)" % v
     if k == "syntax":
-        return "(PExpSyntax %s)" % lib.g_str(v)
+        return "(PExpSyntax %s)" % lib.g_str(PG.canon_error(k, v) or v)     # wording is not part of the property
     if k == "illegal":
-        return "(PExpIllegal %s)" % lib.g_str(v)
+        return "(PExpIllegal %s)" % lib.g_str(PG.canon_error(k, v) or v)
     if k == "other" and v.startswith("AttributeError"):
         return "PExpAttr"
     return "PExpNone"
